@@ -900,10 +900,40 @@ class Interp:
         blk = fn['blocks'][b]
         return not blk['stmts'] and blk['term']['k'] == 'unreachable'
 
+    NEG = {'Eq': 'Ne', 'Ne': 'Eq', 'Lt': 'Ge', 'Ge': 'Lt', 'Le': 'Gt', 'Gt': 'Le'}
+    SWAP = {'Eq': 'Eq', 'Ne': 'Ne', 'Lt': 'Gt', 'Gt': 'Lt', 'Le': 'Ge', 'Ge': 'Le'}
+
     def lookup_con(self, st, d):
         for t, v in reversed(st.cons):
             if t == d:
                 return v
+        # a comparison already decided on this path through an equivalent / complementary atom
+        if d[0] == 'bin' and d[1] in self.NEG:
+            isf = str(d[4]).startswith('f')
+            for t, v in reversed(st.cons):
+                if t[0] != 'bin' or t[1] not in self.NEG:
+                    continue
+                if t[2] == d[2] and t[3] == d[3]:
+                    op = t[1]
+                elif t[2] == d[3] and t[3] == d[2]:
+                    op = self.SWAP[t[1]]
+                else:
+                    continue
+                if isinstance(v, int):
+                    tv = (v != 0)
+                elif isinstance(v, tuple) and v[0] == 'not' and v[1] == (0,):
+                    tv = True
+                else:
+                    continue
+                if op == d[1]:
+                    return 1 if tv else 0
+                if self.NEG[op] == d[1] and (not isf or {op, d[1]} == {'Eq', 'Ne'}):
+                    return 0 if tv else 1
+                if not isf and tv:
+                    implied = {'Eq': {'Le': 1, 'Ge': 1, 'Lt': 0, 'Gt': 0}, 'Lt': {'Le': 1, 'Ne': 1, 'Eq': 0, 'Gt': 0},
+                               'Gt': {'Ge': 1, 'Ne': 1, 'Eq': 0, 'Lt': 0}}.get(op, {})
+                    if d[1] in implied:
+                        return implied[d[1]]
         return None
 
     def con_compatible(self, known, v):
